@@ -55,6 +55,39 @@ def f2h (v : Nat) : Nat :=
     let ret := ret ||| (m >>> shift)
     if r > 0x80000000 ∨ (r = 0x80000000 ∧ (ret &&& 1) ≠ 0) then u16 (ret + 1) else ret
 
+/-- imath_float_to_half, software branch compiled with `IMATH_HALF_ENABLE_FP_EXCEPTIONS`
+(half.h 413-415, 427-430): the same statements plus `feraiseexcept (FE_OVERFLOW)` before the
+overflow return and `if (ui == 0) return ret; feraiseexcept (FE_UNDERFLOW);` in the flush branch.
+Result: (bits, raised) with raised = 0 nothing, 1 FE_OVERFLOW, 2 FE_UNDERFLOW. -/
+def f2hExc (v : Nat) : Nat × Nat :=
+  let ui := v &&& 0x7fffffff
+  let ret := (v >>> 16) &&& 0x8000
+  if ui ≥ 0x38800000 then
+    if ui ≥ 0x7f800000 then
+      let ret := ret ||| 0x7c00
+      if ui = 0x7f800000 then (ret, 0)
+      else
+        let m := (ui &&& 0x7fffff) >>> 13
+        (ret ||| u16 m ||| (if m = 0 then 1 else 0), 0)
+    else if ui > 0x477fefff then (ret ||| 0x7c00, 1)
+    else
+      let ui := ui - 0x38000000
+      let ui := (ui + 0x00000fff + ((ui >>> 13) &&& 1)) >>> 13
+      (ret ||| u16 ui, 0)
+  else if ui < 0x33000001 then
+    if ui = 0 then (ret, 0) else (ret, 2)
+  else
+    let e := ui >>> 23
+    let shift := 0x7e - e
+    let m := 0x800000 ||| (ui &&& 0x7fffff)
+    let r := u32 (m <<< (32 - shift))
+    let ret := ret ||| (m >>> shift)
+    (if r > 0x80000000 ∨ (r = 0x80000000 ∧ (ret &&& 1) ≠ 0) then u16 (ret + 1) else ret, 0)
+
+/-- NaN results -> sign|0x7e00: the F16C comparison of C02 ignores NaN payloads -/
+@[inline] def canon16 (h : Nat) : Nat :=
+  if h &&& 0x7c00 = 0x7c00 ∧ h &&& 0x3ff ≠ 0 then (h &&& 0x8000) ||| 0x7e00 else h
+
 /-- toFloat.cpp: halfToFloat, with the `while (!(m & 0x400))` loop given fuel 10. -/
 def genNormalize : Nat → Nat → Int → Nat × Int
   | 0, m, e => (m, e)
